@@ -276,6 +276,10 @@ func c06CheckCall(t *c06Tx, fr *c06StubLog, pool1 uint64, used uint64, failed bo
 		vs.Assert(a.nonce == wn, "nonce' = nonce + 1 for the sender only")
 	}
 	vs.Assert(len(t.db.accts) == 3, "no account appears")
+	// the literal clause of the property; with a non-zero refund counter the protocol itself
+	// lets gasUsed drop below the intrinsic gas (recorded finding, see known_findings.json)
+	vs.Known("C06-refund-below-intrinsic", t.db.refund != 0)
+	vs.Assert(used >= intrinsic, "intrinsic gas <= gasUsed")
 }
 
 // ---------------------------------------------------------------------------
